@@ -67,8 +67,9 @@ def Table.has (n : Name) : Table → Bool
 
 def Table.names (tb : Table) : List Name := tb.map (·.name)
 
-/-- prefix a dependency / call target unless it is empty (`dep.Task != ""`) -/
-def prefixRef (ns : Name) (n : Name) : Name := if n = [] then n else withNs n ns
+/-- rename a dependency / call target unless it is empty (`dep.Task != ""`):
+`taskRefWithNamespace`, which leaves a `:`-prefixed reference (root Taskfile) untouched -/
+def prefixRef (ns : Name) (n : Name) : Name := if n = [] then n else refWithNs n ns
 
 def prefixCmd (ns : Name) (c : Cmd) : Cmd := { c with task := prefixRef ns c.task }
 
@@ -123,5 +124,15 @@ def mergeTasks (t1 t2 : Table) (inc : Include) (itv : Vars) : Except Err Table :
   match mergeLoop inc itv t2 t1 with
   | .ok m => .ok (defaultAlias inc t2 m)
   | .error e => .error e
+
+/-! ### `Tasks.ResolveRootRefs`: called once on the root table after the whole merge -/
+
+def resolveCmd (c : Cmd) : Cmd := { c with task := resolveRootRef c.task }
+
+def resolveTask (t : Task) : Task :=
+  { t with deps := t.deps.map resolveRootRef, cmds := t.cmds.map resolveCmd }
+
+/-- every dependency and `task:` target of every task loses one leading `:` -/
+def resolveRootRefs (tb : Table) : Table := tb.map resolveTask
 
 end TaskModel.Load
